@@ -199,7 +199,7 @@ func genCase(t *rapid.T, scan bool) Case {
 		var p Plan
 		nErr := weighted(t, "nErr", 10, 3, 2, 1, 1)
 		for j := 0; j < nErr; j++ {
-			k := rapid.IntRange(1, nErrKinds-1).Draw(t, "errKind")
+			k := []int{err429, err503, err500, errNet, errEOF, errTimeout, errCanceled}[rapid.IntRange(0, 6).Draw(t, "errKind")]
 			if weighted(t, "retriable", 7, 1) == 1 {
 				k = errUnavailable
 			}
